@@ -300,6 +300,9 @@ impl Debugger {
             "`run_command` must only be called if `status == WaitForAction`",
         );
 
+        #[cfg(lace_verif)]
+        crate::verif::on_pause(state, self);
+
         Output::Debugger(Condition::Always, Default::default()).start_new_line();
 
         if self.should_echo_pc {
@@ -319,10 +322,15 @@ impl Debugger {
 
         // Read and parse next command
         let command = Command::read_from(&mut self.command_reader, |error| {
+            #[cfg(lace_verif)]
+            crate::verif::on_command_error(&error);
             dprintln!(Alternate, Error, "CommandError", ["{}", error]);
             dprintln!(Sometimes, Error, "Type `help` for a list of commands.");
         })
         .unwrap_or(Command::Quit); // "quit" on EOF
+
+        #[cfg(lace_verif)]
+        crate::verif::on_command(&command);
 
         // Do not re-use `SignificantInstr` from caller
         // Must be recalculated as this method is called in a loop
@@ -652,6 +660,29 @@ impl Debugger {
         None
     }
 }
+
+/// Accessors for the verification harness.
+#[cfg(lace_verif)]
+impl Debugger {
+    pub(crate) fn verif_initial_state(&self) -> &RunState {
+        &self.initial_state
+    }
+    pub(crate) fn verif_breakpoints(&self) -> Vec<(u16, bool)> {
+        self.breakpoints
+            .iter()
+            .map(|breakpoint| (breakpoint.address, breakpoint.is_predefined))
+            .collect()
+    }
+    pub(crate) fn verif_current_breakpoint(&self) -> Option<u16> {
+        self.current_breakpoint
+    }
+    pub(crate) fn verif_instruction_count(&self) -> u32 {
+        self.instruction_count
+    }
+}
+
+#[cfg(lace_verif)]
+pub use self::command::VerifTerminal;
 
 /// Get address of symbol with given name.
 ///
